@@ -372,6 +372,8 @@ impl Server {
         
         loop {
             let mut did_work = false;
+            #[cfg(feature = "verif")]
+            crate::verif::LOOP_ITERATIONS.fetch_add(1, Ordering::SeqCst);
             
             // Process wake-up queue first (very fast, lock-free)
             did_work |= self.process_wakeups()?;
@@ -1161,6 +1163,52 @@ impl Server {
         Ok(RespFrame::Array(Some(results)))
     }
     
+    /// Verification hooks over the wire (feature `verif` only): see src/verif.rs
+    #[cfg(feature = "verif")]
+    fn handle_verif(&self, parts: &[RespFrame], db: usize) -> Result<RespFrame> {
+        use crate::verif;
+        let arg = |i: usize| -> String {
+            match parts.get(i) {
+                Some(RespFrame::BulkString(Some(b))) => String::from_utf8_lossy(b).to_uppercase(),
+                _ => String::new(),
+            }
+        };
+        let raw = |i: usize| -> String {
+            match parts.get(i) {
+                Some(RespFrame::BulkString(Some(b))) => String::from_utf8_lossy(b).to_string(),
+                _ => String::new(),
+            }
+        };
+        match (arg(1).as_str(), arg(2).as_str()) {
+            ("SWEEPER", "PAUSE") => { verif::SWEEPER_PAUSED.store(true, Ordering::SeqCst); Ok(RespFrame::ok()) }
+            ("SWEEPER", "RESUME") => { verif::SWEEPER_PAUSED.store(false, Ordering::SeqCst); Ok(RespFrame::ok()) }
+            ("SWEEPER", "PASSES") => Ok(RespFrame::Integer(verif::SWEEPER_PASSES.load(Ordering::SeqCst) as i64)),
+            ("GATE", "ARM") => { verif::gate_arm(&raw(3)); Ok(RespFrame::ok()) }
+            ("GATE", "RELEASE") => { verif::gate_release(&raw(3)); Ok(RespFrame::ok()) }
+            ("GATE", "REACHED") => Ok(RespFrame::Integer(verif::gate_reached(&raw(3)) as i64)),
+            ("LOOP", _) => Ok(RespFrame::Integer(verif::LOOP_ITERATIONS.load(Ordering::SeqCst) as i64)),
+            ("RDBFAIL", _) => {
+                let n = raw(2).parse::<i64>().unwrap_or(0);
+                verif::RDB_FAIL_IN.store(n, Ordering::SeqCst);
+                verif::RDB_WRITES.store(0, Ordering::SeqCst);
+                Ok(RespFrame::ok())
+            }
+            ("RDBWRITES", _) => Ok(RespFrame::Integer(verif::RDB_WRITES.load(Ordering::SeqCst) as i64)),
+            ("BGSAVING", _) => Ok(RespFrame::Integer(self.rdb_engine.as_ref().map(|e| e.is_bgsave_in_progress() as i64).unwrap_or(0))),
+            ("BLOCKED", _) => {
+                // registry of the selected database: [key, conn ids in FIFO order] pairs sorted by key, then the wake-queue length
+                let mut out = Vec::new();
+                for (key, ids) in self.blocking_manager.verif_registry_dump(db) {
+                    out.push(RespFrame::from_bytes(key));
+                    out.push(RespFrame::Array(Some(ids.into_iter().map(|i| RespFrame::Integer(i as i64)).collect())));
+                }
+                out.push(RespFrame::Integer(self.blocking_manager.verif_wake_queue_len() as i64));
+                Ok(RespFrame::Array(Some(out)))
+            }
+            _ => Ok(RespFrame::error("ERR unknown VERIF subcommand")),
+        }
+    }
+    
     /// Error reply for a command that failed with `Err`: one line, with the Redis error class
     fn error_reply(e: &FerrousError) -> RespFrame {
         use crate::error::{CommandError, StorageError};
@@ -1211,6 +1259,8 @@ impl Server {
         
         // Route to command handler
         let result = match command_name.as_str() {
+            #[cfg(feature = "verif")]
+            "VERIF" => self.handle_verif(parts, db),
             "PING" => self.handle_ping(parts),
             "ECHO" => self.handle_echo(parts),
             "SET" => self.handle_set(parts, db),
